@@ -235,6 +235,9 @@ def search(ctx):
               'tree = ET.parse("pkg.xml")\nlabel = f"static label"\ntoken = random.random()\n')
     for first, second in [("pixee:python/use-defusedxml", "pixee:python/remove-unnecessary-f-str"), ("pixee:python/use-defusedxml", "pixee:python/secure-random")][: ctx.pick(2, 2)]:
         cases.append({"pair": (first, second), "seed": rng.randint(0, 10**9), "extra_files": {"setup.py": SETUP2}, "tag": "setup-py-rewritten-twice", "disjoint": True})
+    # two codemods that need the same package, in a project with two manifests that can both take it
+    TWO = {"pyproject.toml": '[project]\nname = "x"\nversion = "0.1"\ndependencies = [\n    "requests",\n]\n', "requirements.txt": "requests\n"}
+    cases.append({"pair": ("pixee:python/sandbox-process-creation", "pixee:python/url-sandbox"), "seed": rng.randint(0, 10**9), "extra_files": dict(TWO), "tag": "same-package-two-manifests"})
     from codemodder.codemods.semgrep import SemgrepRuleDetector
     from codemodder.registry import load_registered_codemods
     sg = {c.id for c in load_registered_codemods().codemods if isinstance(c.detector, SemgrepRuleDetector)}
